@@ -371,7 +371,7 @@ theorem notification_le_negotiated (H : Handlers) (srv : Server) (cells : List B
 
 def wSrv65 : Server :=
   ⟨65, ⟨false, false, false⟩,
-   [⟨0x2800, .service [0x20, 0x18] 4, default, default⟩, ⟨0x2803, .charDecl [0x01, 0x20] false false true false, default, default⟩,
+   [⟨0x2800, .service [0x20, 0x18] 4, default, default⟩, ⟨0x2803, .charDecl [0x01, 0x20] false false true false 0, default, default⟩,
     ⟨0x2001, .bound 0 40 true true, default, default⟩, ⟨0x2902, .cccd 0, default, default⟩], [2]⟩
 
 /-- the unpatched `l2cap_output` violates the statement: server `max_mtu_size<65>`, client never
